@@ -508,6 +508,30 @@ def slice_faces_plane(
         # apply results for this subset
         inside[on_plane] = dot_check < 0.0
 
+        # a zero-area face lying in the plane has no normal to decide with:
+        # caps triangulated over collinear points contain them and the faces
+        # around them are only connected through them, so keep such a face
+        # exactly when a face it shares an edge with is kept
+        degenerate = np.logical_and(signs_asum == 0, ~on_plane)
+        while degenerate.any() and inside.any():
+            edges = np.sort(
+                np.vstack(
+                    (
+                        geometry.faces_to_edges(faces[degenerate]),
+                        geometry.faces_to_edges(faces[inside]),
+                    )
+                ),
+                axis=1,
+            )
+            hashed = grouping.hashable_rows(edges)
+            count = 3 * int(degenerate.sum())
+            shared = np.isin(hashed[:count], hashed[count:]).reshape((-1, 3)).any(axis=1)
+            if not shared.any():
+                break
+            index = np.nonzero(degenerate)[0][shared]
+            inside[index] = True
+            degenerate[index] = False
+
     # Automatically include all faces that are "inside"
     new_faces = faces[inside]
 
